@@ -249,6 +249,9 @@ impl Family for SyncFam {
     fn m_no_sched_point(op: &GOp<SOp>) -> Option<&'static str> {
         match op {
             GOp::Op(SOp::OnceIsCompleted(_)) => Some("no-scheduling-point-before:Once::is_completed"),
+            // call_once looks at the completion state before its first scheduling point (which is
+            // inside the internal lock): the check is one step with the thread's previous operation
+            GOp::Op(SOp::OnceCall(_) | SOp::OnceNested(..)) => Some("no-scheduling-point-before:Once::call_once-completion-check"),
             GOp::Op(SOp::Park) => Some("no-scheduling-point-before:thread::park"),
             GOp::Op(SOp::BarrierWait(_)) => Some("no-scheduling-point-before:blocking-Barrier::wait"),
             _ => None,
@@ -390,6 +393,33 @@ impl Family for SyncFam {
     }
 
     fn m_step(m: &SM, t: usize, op: &SOp, phase: u8, strict: bool) -> Vec<MStep<SM, SRes>> {
+        let steps = Self::m_step_fine(m, t, op, phase, strict);
+        if !strict || !matches!(op, SOp::OnceCall(_) | SOp::OnceNested(..)) {
+            return steps;
+        }
+        // Strict discipline = the implementation's step boundaries: `call_once` has a scheduling
+        // point when it takes the internal lock and one when it gives it back (both *before* the
+        // action); taking the lock, deciding, running a closure without scheduling points of its own
+        // and publishing completion are ONE step.  The fine-grained phases 2 (decide) and 3
+        // (publish) — 12 / 13 for the inner Once of a nested call — are therefore passed through
+        // at once.  (With them as separate steps the outcome BFS demanded interleavings between the
+        // inner release and the outer completion that no schedule can produce: a false alarm of C02
+        // in the thorough tier.)
+        let mut out = Vec::new();
+        let mut work = steps;
+        while let Some(st) = work.pop() {
+            match st {
+                MStep::Cont(n2, ph) if matches!(ph, 2 | 3 | 12 | 13) => work.extend(Self::m_step_fine(&n2, t, op, ph, strict)),
+                other => out.push(other),
+            }
+        }
+        out
+    }
+}
+
+impl SyncFam {
+    fn m_step_fine(m: &SM, t: usize, op: &SOp, phase: u8, strict: bool) -> Vec<MStep<SM, SRes>> {
+        let _ = strict;
         let mut n = m.clone();
         match op {
             SOp::Lock(i) => {
